@@ -26,4 +26,24 @@ module Nat =
 
   let ltb n m =
     leb (S n) m
+
+  (** val compare : nat -> nat -> comparison **)
+
+  let rec compare n m =
+    match n with
+    | O -> (match m with
+            | O -> Eq
+            | S _ -> Lt)
+    | S n' -> (match m with
+               | O -> Gt
+               | S m' -> compare n' m')
+
+  (** val min : nat -> nat -> nat **)
+
+  let rec min n m =
+    match n with
+    | O -> O
+    | S n' -> (match m with
+               | O -> O
+               | S m' -> S (min n' m'))
  end
